@@ -1,13 +1,98 @@
 /-
   C05 — numeric values decode to the right number; NaN/infinity preserved.
   Property theorems only; helper lemmas are in Proofs/Numeric.lean.
--/
-import PgVerif.Model.Numeric
-import PgVerif.Spec.Numeric
-namespace PgVerif.Props.C05
-open PgVerif PgVerif.Model
 
-/-- placeholder while the pipeline is brought up -/
-theorem C05_zero_digits (w : Int) (neg : Bool) : computeNumeric [] w neg = .num false 0 0 := rfl
+  What "the right number" means here: the model carries the exact value ±mant·10000^exp of the
+  decimal text that the repaired `computeNumeric` hands to strconv.ParseFloat (documented to return
+  the nearest float64).  The theorems say this exact value is the stored numeric's value.  The last
+  step — rounding to float64 — is not expressible in Lean (Float is opaque to the kernel): it is
+  checked on the implementation only, by the harness's math/big oracle (bit equality for ≤ 12
+  significant digits and |exp| ≤ 5, ≤ 2 ulp otherwise; observed 0 ulp everywhere after fix 09).
+-/
+import PgVerif.Proofs.Numeric
+namespace PgVerif.Props.C05
+open PgVerif PgVerif.Model PgVerif.Proofs
+
+/-- For every well-formed numeric — NaN, +Infinity, −Infinity, or a finite value with any sign, any
+weight in int16, any display scale and any number of base-10000 digits (leading/trailing zero groups
+included) — and for each header form that can hold it (short: −64 ≤ weight ≤ 63 and dscale ≤ 63; long:
+always), decoding PostgreSQL's payload yields that value exactly: the three special values as such,
+a finite value as sign · Σ dᵢ·10000^(k−1−i) · 10000^(weight−k+1), and a value without digits as 0. -/
+theorem C05_value (n : Spec.Numeric) (h : n.WF) (form : Spec.HeaderForm) (hf : form.admits n) :
+    (decodeNumeric (Spec.encNumeric form n)).map NumRes.toView = .ok (some n.view) := by
+  cases n with
+  | nan => cases form <;> rfl
+  | pinf => cases form <;> rfl
+  | ninf => cases form <;> rfl
+  | fin neg w ds digits =>
+    obtain ⟨hd, h1, h2, h3⟩ := h
+    cases form with
+    | short =>
+      obtain ⟨a, b, c⟩ := hf
+      exact decodeNumeric_short neg w ds digits hd a b c
+    | long => exact decodeNumeric_long neg w ds digits hd h1 h2 h3
+
+/-- The same value is obtained when the numeric sits inside a JSONB document, i.e. behind its own
+4-byte varlena header (how PostgreSQL stores every numeric in jsonb), through `decodeJNumeric`. -/
+theorem C05_jsonb (n : Spec.Numeric) (h : n.WF) (form : Spec.HeaderForm) (hf : form.admits n)
+    (hlen : (Spec.encNumeric form n).length + 4 < 2 ^ 30) :
+    (decodeJNumeric (Spec.varlena4 (Spec.encNumeric form n))).map NumRes.toView = .ok (some n.view) := by
+  have hpos : 0 < (Spec.encNumeric form n).length := by
+    cases n <;> cases form <;> simp [Spec.encNumeric, le_length] <;> omega
+  rw [decodeJNumeric_varlena4 _ hpos hlen]
+  exact C05_value n h form hf
+
+/-- … and behind a 1-byte ("short") varlena header, which the reader also accepts, provided the
+payload has at least 3 bytes.  (A bare 2-byte header word — the value 0 without digits — behind a
+1-byte varlena header is only 3 bytes long and `decodeJNumeric` requires 4; PostgreSQL never writes
+this form inside jsonb.) -/
+theorem C05_jsonb_short_varlena (n : Spec.Numeric) (h : n.WF) (form : Spec.HeaderForm) (hf : form.admits n)
+    (h3 : 3 ≤ (Spec.encNumeric form n).length) (hlen : (Spec.encNumeric form n).length + 1 ≤ 127) :
+    (decodeJNumeric (Spec.varlena1 (Spec.encNumeric form n))).map NumRes.toView = .ok (some n.view) := by
+  rw [decodeJNumeric_varlena1 _ h3 hlen]
+  exact C05_value n h form hf
+
+/-- All 65 536 header words (no enumeration: quotient/remainder reasoning on the masks): whatever
+follows the header word, `DecodeNumeric` takes the branch PostgreSQL's own macros select for that
+word — special (and then NaN / +Infinity / −Infinity exactly as numeric_out prints it), short (with
+the sign bit 0x2000 and the 7-bit two's complement weight), or long (with the sign 0x4000). -/
+theorem C05_header (h : Nat) (hh : h < 65536) (body : Bytes) :
+    match Spec.classifyHeader h with
+    | .special v => decodeNumeric (le 2 h ++ body) = .ok (.special (specialOf h)) ∧
+                    (NumRes.special (specialOf h)).toView = some v
+    | .short neg w _ => decodeNumeric (le 2 h ++ body) = decodeNumericShort (le 2 h ++ body) h ∧
+                        shortHeaderFields h = ⟨neg, w⟩
+    | .long neg _ => decodeNumeric (le 2 h ++ body) = decodeNumericLong (le 2 h ++ body) ∧
+                     ((h &&& 0xC000) == 0x4000) = neg := by
+  obtain ⟨_, _, m3, m4⟩ := header_masks h
+  rw [decodeNumeric_dispatch h body hh]
+  unfold Spec.classifyHeader
+  by_cases c3 : (h / 0x4000 % 4 == 3) = true
+  · simp only [c3, if_true, true_and]
+    unfold specialOf
+    split
+    · rfl
+    · split <;> rfl
+  · simp only [c3, Bool.false_eq_true, if_false]
+    have c3' : ¬ h / 0x4000 % 4 = 3 := by simpa using c3
+    by_cases c2 : (h / 0x4000 % 4 == 2) = true
+    · have c2' : h / 0x4000 % 4 = 2 := by simpa using c2
+      have e : (h / 0x8000 % 2 == 1) = true := by simp; omega
+      simp only [c2, e, if_true, true_and]
+      exact m4
+    · have c2' : ¬ h / 0x4000 % 4 = 2 := by simpa using c2
+      have e : (h / 0x8000 % 2 == 1) = false := by simp; omega
+      simp only [c2, e, Bool.false_eq_true, if_false, true_and]
+      exact m3
+
+/-- non-vacuity of `C05_value`: 0.5 (short form, weight −1 — the class broken before fix 01), −12.34 in
+the long form, and NaN satisfy the hypotheses -/
+example : (Spec.Numeric.fin false (-1) 1 [5000]).WF ∧ Spec.HeaderForm.short.admits (.fin false (-1) 1 [5000]) ∧
+    (Spec.Numeric.fin true 0 2 [12, 3400]).WF ∧ Spec.HeaderForm.long.admits (.fin true 0 2 [12, 3400]) ∧
+    Spec.Numeric.nan.WF := by decide
+
+/-- … and the decoder's answer on the first is the exact value 5000·10000⁻¹ -/
+example : decodeNumeric (Spec.encNumeric .short (.fin false (-1) 1 [5000])) = .ok (.num false 5000 (-1)) := by
+  rfl
 
 end PgVerif.Props.C05
